@@ -45,6 +45,7 @@ type FuncContract struct {
 	IsIface      bool
 	Trusted      bool // contract assumed at call sites, body not verified (listed in evidence)
 	LockFree     bool
+	LockProps    []string // `lockbalance[Cxx]`: the lock-pairing obligations of this function also serve these properties
 	Recovers     bool
 	Implied      bool // synthesized from the `recoverguard` of the function that defers this one
 	RecoverGuard bool
@@ -691,6 +692,10 @@ func ParseContracts(dir, pkgPath string) (*PkgContracts, error) {
 			cur = nil
 		case "lockfree":
 			cur.LockFree = true
+		case "lockbalance":
+			// lockbalance[Cxx]: every Lock of this function is released on every path (the obligations of
+			// the C08 lemma) is also claimed under Cxx - a leaked lock on an input-driven path is a hang
+			cur.LockProps = append(cur.LockProps, parseProps(props)...)
 		default:
 			return nil, fmt.Errorf("%s:%d: unknown contract keyword %q", file, l.no, kw)
 		}
